@@ -496,7 +496,7 @@ def prio_key(w: World, task):
 
 def charged_mismatch(w: World, rec: dict) -> bool:
     """Did the policy charge its virtual cluster with another strategy than the one it
-    reports for some placed task?  (classification of a failure as the D13 class)"""
+    reports for some placed task?  (classification of a failure as the class of the former finding D13)"""
     if rec.get("vobj") is None or rec["placements"] is None:
         return False
     charged = {}
@@ -809,11 +809,13 @@ def _st(rt, **req):
 
 
 def corpus() -> list[dict]:
-    """Hand-written inputs: the known finding's witness, tie and boundary cases. Always run first."""
+    """Hand-written inputs: the former finding D13's witness, tie and boundary cases. Always run first."""
     out = []
     two_workers = [{"name": "P0", "workers": [{"name": "W0", "res": [["CPU", 1]]}, {"name": "W1", "res": [["GPU", 1]]}]}]
-    # D13 witness: A tests [GPU, CPU]; LSF charges the CPU of W0 but reports the GPU strategy;
-    # B (CPU) is then left unplaced although the CPU is free, C (GPU) is placed on the "taken" GPU.
+    # Witness of the former finding D13 (fixed in /repo 366b4de), kept so that the check reports it
+    # again should it return: A tests [GPU, CPU]; LSF used to charge the CPU of W0 while reporting
+    # the GPU strategy; B (CPU) was then left unplaced although the CPU was free and C (GPU) was
+    # placed on the "taken" GPU.
     for pol in POLICIES:
         out.append(
             {
